@@ -1544,8 +1544,28 @@ func main() {
 	}
 
 	// hand-written corner histories first (they also seed the known findings deterministically)
-	for _, h := range corner() {
-		emit("corner", h, nil, true)
+	for ci, h := range corner() {
+		base := emit("corner", h, nil, true)
+		if *tier != "thorough" {
+			continue
+		}
+		// exhaustive small scope: EVERY fault sequence over {ok, error, denied, ACL not found} on
+		// the first calls of the corner histories (all through the oracle, 1/16 also through Coq)
+		n := base.calls
+		if n > 6 {
+			n = 6
+		}
+		total := 1
+		for i := 0; i < n; i++ {
+			total *= 4
+		}
+		for code := 1; code < total; code++ {
+			faults := make([]int, n)
+			for i, c := 0, code; i < n; i, c = i+1, c/4 {
+				faults[i] = c % 4
+			}
+			emit("corner/exhaustive", h, faults, (code+ci)%16 == 0)
+		}
 	}
 
 	for hi := 0; hi < nHist+nMal; hi++ {
